@@ -397,7 +397,12 @@ loop:
 			w.Inconclusive("post-query-sentinel-timeout-without-corroboration")
 			return
 		}
-		if f3 != 3 {
+		if f3 > 3 && !sc.NoCPR {
+			// a cursor position report that arrived after its request had
+			// timed out (loaded machine) is, by the protocol's own ambiguity,
+			// a modified F3 key: more than three is no loss
+			w.Count("late_cursor_reports_delivered_as_keys", int64(f3-3))
+		} else if f3 != 3 {
 			w.Violation("lost:key-taken-for-a-reply-after-the-query-was-over", fmt.Sprintf("3 Shift+F3 keys (CSI 1;2 R) typed after all cursor-position queries had returned: %d delivered", f3), sc, fmt.Sprint(f3), "3")
 			return
 		}
